@@ -16,7 +16,7 @@ WEIGHTS = {'add_formula_column': 12, 'modify_formula': 6, 'add_ref_column': 5, '
 
 def plan(tier, seed):
   n, steps = (16, 45) if tier == 'quick' else (160, 80)
-  return [{'witness': 'self_lookup_cycle'}, {'witness': 'new_table_name'}] + \
+  return [{'witness': 'self_lookup_cycle'}, {'witness': 'new_table_name'}, {'witness': 'summary_error_keys'}] + \
          [{'hseed': seed * 100003 + 5000 + i, 'steps': steps, 'every': 4} for i in range(n)]
 
 
@@ -46,6 +46,50 @@ def only_live_nameerror(S, F):
   return n > 0
 
 
+def only_summaries_with_error_keys(S, F):
+  """True iff S and F differ only in summary tables one of whose group-by source columns holds an
+  error value in some row (how error cells group is outside the summary statement; the live engine
+  keeps the old summary rows, a fresh one has none)."""
+  T = snapshot.rows_of(S, '_grist_Tables')
+  C = snapshot.rows_of(S, '_grist_Tables_column')
+  excused = set()
+  for tr, t in T.items():
+    if not t['summarySourceTable'] or t['summarySourceTable'] not in T:
+      continue
+    src = T[t['summarySourceTable']]['tableId']
+    for c in C.values():
+      if c['parentId'] == tr and c['summarySourceCol'] and c['summarySourceCol'] in C:
+        sc = C[c['summarySourceCol']]['colId']
+        if src in S and sc in S[src][1] and any(isinstance(v, list) and v and v[0] == 'E' for v in S[src][1][sc]):
+          excused.add(t['tableId'])
+  for tid in set(S) | set(F):
+    if tid in excused:
+      continue
+    if tid not in S or tid not in F or S[tid] != F[tid]:
+      # differences outside the excused summary tables must be formula cells that read them
+      if tid in S and tid in F and S[tid][0] == F[tid][0]:
+        continue
+      return False
+  return bool(excused)
+
+
+def witness_summary_error_keys(acc):
+  from vlib.client import EngineProc
+  with EngineProc() as p:
+    p.init_doc()
+    p.apply([['AddTable', 'T', [{'id': 'K', 'type': 'Int', 'isFormula': False}]]])
+    p.apply([['AddColumn', 'T', 'F', {'isFormula': True, 'type': 'Text', 'formula': '"big" if $K > 1 else "small"'}]])
+    p.apply([['BulkAddRecord', 'T', [None, None], {'K': [1, 2]}]])
+    p.apply([['CreateViewSection', 1, 0, 'record', [3], None]])
+    p.apply([['RemoveColumn', 'T', 'K']])
+    S = snapshot.take(p)
+    F, _ = reload.scratch_snapshot(p)
+    d = snapshot.diff(S, F)
+    acc.count('witness_runs')
+    if d and only_summaries_with_error_keys(S, F):
+      acc.violation('summary_rows_with_error_keys', 'witness: %s' % d[:2], {'diff': d})
+
+
 def witness_new_table_name(acc):
   """Open finding: a formula naming a table that does not exist holds NameError; adding a table of
   that name later does not re-evaluate it (there is no invalidation for new table names)."""
@@ -72,7 +116,8 @@ def witness_self_lookup_cycle(acc):
   with EngineProc() as p:
     p.init_doc()
     p.apply([['AddTable', 'T', [{'id': 'K', 'type': 'Int', 'isFormula': False}]]])
-    p.apply([['AddColumn', 'T', 'B', {'isFormula': True, 'type': 'Any', 'formula': 'T.lookupOne(B=$K).K'}]])
+    p.apply([['BulkAddRecord', 'T', [None, None], {'K': [1, 2]}]])
+    p.apply([['AddColumn', 'T', 'B', {'isFormula': True, 'type': 'Text', 'formula': 'T.lookupOne(B=$K).K'}]])
     p.apply([['BulkAddRecord', 'T', [None, None], {'K': [1, 2]}]])
     S = snapshot.take(p)
     F, _ = reload.scratch_snapshot(p)
@@ -112,6 +157,8 @@ class ScratchMonitor(histories.Monitor):
         mech = 'cycle_detection_incremental_vs_scratch'
       elif kind == 'formula_cells' and only_live_nameerror(S, F):
         mech = 'unknown_name_not_reevaluated'
+      elif kind == 'data' and only_summaries_with_error_keys(S, F):
+        mech = 'summary_rows_with_error_keys'
       h.violation(mech, 'live formula values differ from a fresh engine recalculating the same data: %s' % d[:3],
                   {'diff': d, 'bundle': ctx.bundle})
 
